@@ -10,9 +10,14 @@ namespace Fatchoy.C19
 
 /-- the regenerated tables satisfy the side-condition, on the platform of the run … -/
 theorem C19_valid : Valid params := by decide
-/-- … and on both code paths selected by `is64Bit` -/
+/-- … and on both code paths selected by `is64Bit`: `mkParams true` / `mkParams false` are exactly
+the tables the model driver switches to when the op stream announces `arch bits=64` / `arch bits=32`
+(a GOARCH=386 build of the harness announces 32), so every theorem below — all stated for any
+`Valid P` — holds of the model that is compared with the real code, for either word size -/
 theorem C19_valid_64 : Valid (mkParams true) := by decide
 theorem C19_valid_32 : Valid (mkParams false) := by decide
+/-- the word is 8 bytes with the 64-bit tables and 4 bytes with the 32-bit tables -/
+theorem C19_valid_word : (mkParams true).word = 8 ∧ (mkParams false).word = 4 := ⟨rfl, rfl⟩
 
 /-- fixed-width little-endian encoding: `n` bytes, byte `i` holds bits `8i..8i+7`, and decoding the
 first `n` bytes gives the value back and leaves the rest -/
@@ -139,6 +144,13 @@ platform word, on the regenerated tables -/
 example : readAll params (writeAll params [] [(.bool, 1), (.i16, 0xfffe), (.f32, 0x7fc00001), (.uint, 0xdeadbeef), (.u64, 2^64-1)])
     [.bool, .i16, .f32, .uint, .u64] = .ok ([1, 0xfffe, 0x7fc00001, 0xdeadbeef, 2^64-1], []) :=
   C19_sequence params C19_valid _ (by decide)
+
+/-- test: the same sequence on the 32-bit tables: the word-sized value takes 4 bytes (15 in all) and
+everything reads back -/
+example : (writeAll (mkParams false) [] [(.bool, 1), (.i16, 0xfffe), (.uint, 0xdeadbeef), (.u64, 2^64-1)]).length = 15 ∧
+    readAll (mkParams false) (writeAll (mkParams false) [] [(.bool, 1), (.i16, 0xfffe), (.uint, 0xdeadbeef), (.u64, 2^64-1)])
+      [.bool, .i16, .uint, .u64] = .ok ([1, 0xfffe, 0xdeadbeef, 2^64-1], []) :=
+  ⟨by decide, C19_sequence (mkParams false) C19_valid_32 _ (by decide)⟩
 
 /-- test: the bytes of a 32-bit write are little-endian -/
 example : write params [] .u32 0x11223344 = [0x44, 0x33, 0x22, 0x11] := by decide
